@@ -19,12 +19,26 @@ type sctx struct {
 	propertyList []S16
 	hasList      bool
 	replacer     Value // callable or Undefined
+	liveKeys     bool  // alternative model only, see StringifyLiveKeys
 }
 
 // Stringify is JSON.stringify(value, replacer, space) (15.12.3). Absent
 // arguments are passed as Undef.
 func Stringify(value, replacer, space Value) (res StringifyResult) {
-	c := &sctx{replacer: Undef}
+	return stringify(value, replacer, space, false)
+}
+
+// StringifyLiveKeys is NOT the specification algorithm: JO ranges over the live
+// key slice of the object (AliasDelete objects shift it in place) instead of the
+// list K taken in JO step 5/6, skipping names that are no longer own enumerable
+// properties — the alternative model of an implementation that enumerates its
+// property-order slice while callbacks delete from it.
+func StringifyLiveKeys(value, replacer, space Value) StringifyResult {
+	return stringify(value, replacer, space, true)
+}
+
+func stringify(value, replacer, space Value, liveKeys bool) (res StringifyResult) {
+	c := &sctx{replacer: Undef, liveKeys: liveKeys}
 	res.Err = catch(func() {
 		// step 4
 		if replacer.Kind == Object {
@@ -208,11 +222,18 @@ func (c *sctx) jo(o *Obj) []uint16 {
 	var keys []S16
 	if c.hasList {
 		keys = c.propertyList
+	} else if c.liveKeys {
+		keys = o.Keys
 	} else {
 		keys = o.OwnEnumKeys()
 	}
 	var partial [][]uint16
 	for _, p := range keys {
+		if c.liveKeys && !c.hasList {
+			if pr, ok := o.Props[p]; !ok || !pr.Enum {
+				continue
+			}
+		}
 		s, ok := c.str(p, o)
 		if !ok {
 			continue
